@@ -254,15 +254,17 @@ class RDMol2StereoMolGraph:
                 ):
                     bond_atoms_idx = (
                         stereo_atoms[0],
-                        *[n for n in neighbors_begin if n != stereo_atoms[0]],
+                        ([n for n in neighbors_begin if n != stereo_atoms[0]]
+                         + [None])[0],
                         begin_idx,
                         end_idx,
                         stereo_atoms[1],
-                        *[n for n in neighbors_end if n != stereo_atoms[1]],
+                        ([n for n in neighbors_end if n != stereo_atoms[1]]
+                         + [None])[0],
                     )
 
                     bond_atoms = tuple(
-                        [id_atom_map[a] for a in bond_atoms_idx]
+                        [id_atom_map.get(a) for a in bond_atoms_idx]
                     )
 
                 elif (
@@ -271,15 +273,17 @@ class RDMol2StereoMolGraph:
                 ):
                     bond_atoms_idx = (
                         stereo_atoms[0],
-                        *[n for n in neighbors_end if n != stereo_atoms[0]],
+                        ([n for n in neighbors_end if n != stereo_atoms[0]]
+                         + [None])[0],
                         begin_idx,
                         end_idx,
                         stereo_atoms[1],
-                        *[n for n in neighbors_begin if n != stereo_atoms[1]],
+                        ([n for n in neighbors_begin if n != stereo_atoms[1]]
+                         + [None])[0],
                     )
 
                     bond_atoms = tuple(
-                        [id_atom_map[a] for a in bond_atoms_idx]
+                        [id_atom_map.get(a) for a in bond_atoms_idx]
                     )
                 else:
                     raise RuntimeError("Stereo Atoms not neighbors")
